@@ -75,6 +75,8 @@ MUTATIONS = {
         ('encode', 'tonic/src/codec/encode.rs', r'buf\.put_u8\(compression_encoding\.is_some\(\) as u8\);', 'buf.put_u8(compression_encoding.is_none() as u8);', 'compressed flag polarity'),
     ],
     'C02': [
+        ('tbody', 'tonic/src/body.rs', r'if body\.is_end_stream\(\) \{\n            return Self::empty\(\);\n        \}', 'if !body.is_end_stream() {\n            return Self::empty();\n        }', 'every body that still has frames is replaced by the empty body'),
+        ('tbody', 'tonic/src/body.rs', r'return body\.take\(\)\.unwrap\(\);', 'let _ = body.take(); return Self::empty();', 'a tonic Body handed to Body::new loses its frames'),
         ('tbody', 'tonic/src/body.rs', r'Kind::Empty => Poll::Ready\(None\),', 'Kind::Empty => Poll::Pending,', 'an empty body never ends'),
         ('tbody', 'tonic/src/body.rs', r'Kind::Empty => true,\s*Kind::Wrap\(body\) => body\.is_end_stream\(\),', 'Kind::Empty => true,\n            Kind::Wrap(_) => true,', 'a wrapping body always claims to be at its end'),
         ('errmap', 'tonic/src/status.rs', r'code: status\.code,\n                message: status\.message\.clone\(\),', 'code: Code::Unknown,\n                message: status.message.clone(),', 'a status found in the cause chain loses its code'),
